@@ -13,9 +13,9 @@ from mc.ref import expr as rx
 ID = "C10"
 LEVEL = "model_checking"
 LEVEL_TEXT = ("Explicit enumeration of `.if` programs (18 condition kinds: 0/1/2/-1 as literal, := constant, macro parameter, constant "
-              "expression, undefined name alone and inside an expression) x else present/absent x 9 then-bodies (incl. empty, a macro definition, a label used after the .if and a := override) x 5 else-bodies x 4 placements (top level, block, "
+              "expression, undefined name alone and inside an expression) x else present/absent x 10 then-bodies (incl. empty, one that applies an undefined macro, a macro definition, a label used after the .if and a := override) x 6 else-bodies x 4 placements (top level, block, "
               "macro body, loop body) and `.for` programs (all bound pairs over {-2,0,1,3}^2, bounds from := constants, macro "
-              "parameters and expressions) x 9 bodies (empty expansion, := shadowing inside the body, data over v, lda.b v, label + reference, nested loop over v*2+w, conditional, "
+              "parameters and expressions incl. & << >> at the top of the start bound; the constants are assigned again at the end of every program) x 10 bodies (empty expansion, a name assigned twice in one iteration and used as an inner loop bound, := shadowing inside the body, data over v, lda.b v, label + reference, nested loop over v*2+w, conditional, "
               "macro call with v, mixed) x 3 placements x 3 nestings (plain, inside a conditional, inside another loop; thorough: bound pairs over 9 values), and every nesting tree with <=3 items (thorough <=4), depth <=3, over 7 leaves (byte, loop variable, two loop variables, label, reference to it, := accumulation, macro call with the variable) and 8 containers (taken .if, .else branch of a false .if, .if over an undefined name, 2-iteration loop, loop over a second variable, zero-iteration loop, block, macro application). Each program is assembled by the real "
               "assembler and compared with (a) the reference expansion and (b) its hand-expanded twin (selected branch spliced in; "
               "`{ v = k ... }` per iteration) run through the same assembler. Tests check one true, one false condition and one loop.")
@@ -58,6 +58,8 @@ THEN = {
     "defines-macro": [("macro", "mz", [], [("data", "db", [N(0xE1)])])],  # each branch defines the same macro differently; applied after the .if
     "label-after": [("label", "la"), ("data", "db", [N(0x15)])],      # the label is referenced AFTER the .if
     "const-override": [("const", "kq", N(2)), ("data", "db", [N(0x16)])],  # kq := 1 outside, .db kq after the .if
+    # a block that cannot be expanded: the program fails when (and only when) this block is the selected one
+    "undefined-macro": [("data", "db", [N(0x17)]), ("call", "nosuchmacro", [N(1)])],
 }
 AFTER_IF = {"label-after": [("data", "dw", [S("la")])], "const-override": [("data", "db", [S("kq")])], "defines-macro": [("call", "mz", [])]}
 ELSE = {
@@ -66,6 +68,7 @@ ELSE = {
     "call": [("call", "nn", [N(0x24)])],
     "label-after": [("label", "la"), ("data", "db", [N(0x25)])],
     "defines-macro": [("macro", "mz", [], [("data", "db", [N(0xE2)])])],
+    "undefined-macro": [("data", "db", [N(0x27)]), ("call", "nosuchmacro", [N(2)])],
 }
 IF_PLACES = ["top", "block", "macro", "for"]
 FOR_BODIES = {
@@ -78,6 +81,8 @@ FOR_BODIES = {
     "mixed": [("data", "db", [S("vv")]), ("label", "fl"), ("data", "dl", [S("fl")]), ("data", "db", [("b", "+", S("vv"), N(1))])],
     "empty": [("if", S("k0"), [("data", "db", [S("vv")])], None)],  # every iteration expands to nothing
     # expansion-time state inside the body: a := in an iteration's scope shadows the outer constant for that iteration only
+    "assign-twice": [("const", "acc", N(5)), ("data", "db", [S("vv")]), ("const", "acc", ("b", "+", S("acc"), S("vv"))), ("data", "db", [S("acc")]),
+                     ("for", "jj", N(0), S("acc"), [("data", "db", [N(0xC7)])])],
     "shadow-const": [("const", "acc", ("b", "+", S("acc"), N(1))), ("data", "db", [S("acc")]), ("if", S("acc"), [("data", "db", [N(0x5C)])], None)],
 }
 FOR_PLACES = ["top", "block", "macro"]
@@ -86,7 +91,7 @@ VALS_T = [-3, -2, -1, 0, 1, 2, 3, 5, 8]
 
 
 def bound(tier):
-    return ("IF: 18 condition kinds x else on/off x 9 then x 5 else bodies x 4 placements; FOR: (16 literal bound pairs + 5 symbolic) x 9 "
+    return ("IF: 18 condition kinds x else on/off x 10 then x 6 else bodies x 4 placements; FOR: (16 literal bound pairs + 11 symbolic) x 10 "
             "bodies x 3 placements x 3 nestings" + ("; bound pairs over {-3..3,5,8}^2; 8 two-level placements" if tier == "thorough" else "")
             + f"; all directive nesting trees with <={4 if tier == 'thorough' else 3} items, depth <=3, over 7 leaves + 8 containers")
 
@@ -144,6 +149,10 @@ def skeleton(inner, place, macro_defs):
     body += [("data", "dw", [S("fl")]), ("data", "db", [S("vv")]),
              ("call", "nn", [("b", "+", S("kc"), N(0x30))]), ("block", [("label", "pblk"), ("data", "dw", [S("pblk")])]),
              ("label", "post"), ("data", "dw", [N(0xEEDD)]), ("data", "dl", [S("post")])]
+    # the constants that conditions and loop bounds read are assigned AGAIN at the very end: directives are decided where
+    # they stand, with the value the constant has there
+    body += [("const", "ka", N(7)), ("const", "kb", N(0)), ("const", "kc", N(0)), ("const", "k0", N(1)), ("const", "k2", N(0)),
+             ("const", "kn", N(0))]
     return body
 
 
@@ -200,6 +209,9 @@ def for_programs(bk, tier):
     bounds = [(neg_safe(a), neg_safe(b), a, b, "direct", f"{a},{b}") for a in vals for b in vals]
     bounds += [(S("ka"), S("kb"), 1, 3, "direct", "ka,kb"), (S("kb"), S("ka"), 3, 1, "direct", "kb,ka"),
                (("b", "-", S("ka"), N(1)), ("b", "+", S("kb"), N(1)), 0, 4, "direct", "ka-1,kb+1"),
+               (("b", "&", S("kb"), N(2)), N(5), 2, 5, "direct", "kb&2,5"), (("b", "<<", S("kb"), N(1)), N(8), 6, 8, "direct", "kb<<1,8"),
+               (("b", "&", S("kb"), N(2)), ("b", ">>", S("kb"), N(0)), 2, 3, "direct", "kb&2,kb>>0"),
+               (("b", "&", S("kb"), N(2)), N(5), 2, 5, "param", "param kb&2,5"),
                (N(1), N(3), 1, 3, "param", "param 1,3"), (N(0), S("kb"), 0, 3, "param", "param 0,kb"),
                (N(1), N(3), 1, 3, "param-twice", "param 1,3 then 0,1"), (N(2), N(2), 2, 2, "param-twice", "param 2,2 then 0,1")]
     for lo_e, hi_e, lo, hi, how, btag in bounds:
@@ -255,7 +267,23 @@ def run_pairs(gen, prefix, skip_unspec=False):
         src = render.source(main)
         v = refasm.RefAsm(bus).assemble(main)
         if skip_unspec and v.status == "unspec":
-            outcomes.add("unspecified-skipped")
+            # the reference is silent (e.g. a name assigned twice in one scope): the hand-expanded twin still is an oracle -
+            # when both are accepted they must agree
+            out = impl.assemble(src, rom="low_rom")
+            evals += 1
+            if out.accepted:
+                tsrc = render.source(twin)
+                o2 = impl.assemble(tsrc, rom="low_rom")
+                evals += 1
+                if o2.accepted and (o2.blocks != out.blocks or outer_labels(o2.labels) != outer_labels(out.labels)):
+                    kt = ",".join(str(x) for x in tag)
+                    viol.append({"key": f"{prefix}:differs-from-hand-expanded-twin:{kt.split(',')[0]},{kt.split(',')[-1]}",
+                                 "msg": f"program {out.brief()} vs twin {o2.brief()} :: {src!r} :: twin {tsrc!r}"})
+                    outcomes.add("VIOLATION")
+                    if len(viol) > 30:
+                        break
+                    continue
+            outcomes.add("unspecified-twin-only")
             continue
         out = impl.assemble(src, rom="low_rom")
         evals += 1
